@@ -57,6 +57,9 @@ def _ev1(e, env, memo):
             return _round_half_even(a)
         if name == 'round2_':
             return _round_half_even(a * 100) / 100
+        if name.startswith('roundn') and name.endswith('_'):
+            nd = int(name[6:-1])
+            return _round_half_even(a * 10 ** nd) / 10 ** nd
         if name == 'sqrt_':
             if a < 0:
                 raise EvalError('sqrt of negative')
